@@ -196,7 +196,26 @@ func genC17(r *Rand) *BitsCase {
 func genC17Walk(r *Rand) *ProgCase {
 	p := Prog{}
 	mode := 16
+	// a directive may be written although another one follows before any statement: only the last one counts
+	nq := 0
+	superseded := func(final int) {
+		if !r.Chance(1, 3) {
+			return
+		}
+		p.Stmts = append(p.Stmts, PStmt{K: "bits", N: int64(Pick(r, []int{48 - final, 48 - final, final}))})
+		switch r.Intn(4) {
+		case 0:
+			p.Stmts = append(p.Stmts, PStmt{K: "raw", Text: "; nothing is emitted between the two directives"})
+		case 1:
+			nq++
+			p.Stmts = append(p.Stmts, PStmt{K: "equ", Label: fmt.Sprintf("SEL%d", nq), Text: "8", N: 8})
+		case 2:
+			nq++
+			p.Stmts = append(p.Stmts, PStmt{K: "label", Label: fmt.Sprintf("gap%d", nq)})
+		}
+	}
 	if r.Bool() {
+		superseded(16)
 		p.Stmts = append(p.Stmts, PStmt{K: "bits", N: 16})
 	}
 	p.Stmts = append(p.Stmts, PStmt{K: "movl", Reg: probeReg(16, r.Intn(8)), Label: "zend"})
@@ -205,6 +224,7 @@ func genC17Walk(r *Rand) *ProgCase {
 	for i := 0; i < n; i++ {
 		if i > 0 {
 			mode = 48 - mode
+			superseded(mode)
 			p.Stmts = append(p.Stmts, PStmt{K: "bits", N: int64(mode)})
 		}
 		// a label branch is often the FIRST statement after the switch (its ocode is rewritten in pass 2)
